@@ -78,6 +78,7 @@ def run(tier, seed, replay=None):
                 return False
         return True
 
+    cpc_l1 = []
     # ---------------------------------------------------------------- sections, corners, edges, faces, const_par_curve
     for it in range(reps):
         pd = rng.choice([1, 2, 2, 3, 3])
@@ -199,6 +200,7 @@ def run(tier, seed, replay=None):
                 try:
                     cpc = o.const_par_curve(kv, d)
                     count('const_par_curve')
+                    cpc_l1.append((O.snapshot(oc), C.fr(kv), d, O.snapshot(cpc), dict(args0, knot=kv, direction=d)))
                     for _ in range(3):
                         t = o.start(1 - d) + (o.end(1 - d) - o.start(1 - d)) * rng.randint(0, 16) / 16.0
                         p = [kv, t] if d == 0 else [t, kv]
@@ -383,6 +385,19 @@ def run(tier, seed, replay=None):
         dfr = O.snaps_differ(snap, mo, rel=1e-12)
         if dfr and corr_bad.open():
             corr_bad += {'what': 'L1: section %s differs from the model: %s' % (sel, dfr), 'op': 'section', 'args': dict(obj=O.spec_json(spec), selector=sel)}
+    # ---- L1: Surface.const_par_curve vs Model/ConstPar.v (insertion to multiplicity order-1, choice of the control-point row)
+    tolq = C.fr(1e-10)
+    clines = ['const_par_curve %s %s %s %d' % (C.qs(tolq), O.obj_tokens(sn), C.qs(kv), d) for (sn, kv, d, got, a_) in cpc_l1[: (200 if tier == 'quick' else 100000)]]
+    couts = C.run_model(clines) if clines else []
+    for tk, (sn, kv, d, got, a_) in zip(couts, cpc_l1):
+        nl1 += 1
+        if tk.word() != 'Ok':
+            corr_bad += {'what': 'L1: the model of const_par_curve raises %s, the implementation returns a curve' % tk.word(), 'op': 'const_par_curve', 'args': a_}
+            continue
+        mo = O.read_obj(tk)
+        dfr = O.snaps_differ(got, mo, rel=1e-9)
+        if dfr:
+            corr_bad += {'what': 'L1: const_par_curve differs from the model: %s' % dfr, 'op': 'const_par_curve', 'args': a_}
     dist['op']['L1 comparisons'] = nl1
     rc = V.finish(l0, corr_bad)
     C.write_evidence(PID, tier, seed, l0, {
